@@ -88,6 +88,10 @@ func LiteralStress(r *prng.R) []byte {
 var LimitKinds = []string{"blocks", "locals", "rightnest", "parens", "jump-and", "jump-or", "repeat", "flatchain", "notchain", "negchain",
 	"manyblocks", "manyconsts", "hugeident", "hugestring", "blocklocals", "fieldchain", "deepblocks-vars", "fieldtemps"}
 
+// ForceN, when positive, fixes the size of the next manyconsts / hugeident / hugestring program
+// (the first run indices of a check visit the large sizes deterministically).
+var ForceN int
+
 // LimitProgram builds a valid program scaled to just below, at or above an
 // implementation limit. big allows the slow ones (hundreds of KiB).
 func LimitProgram(r *prng.R, kind string, big bool) []byte {
@@ -213,6 +217,9 @@ func LimitProgram(r *prng.R, kind string, big bool) []byte {
 		if big {
 			n = prng.Pick(r, []int{2280, 2295, 67820, 67830})
 		}
+		if ForceN > 0 {
+			n = ForceN
+		}
 		for i := 0; i < n; i++ {
 			fmt.Fprintf(&sb, "eval %d\n", i+2)
 		}
@@ -222,12 +229,18 @@ func LimitProgram(r *prng.R, kind string, big bool) []byte {
 		if !big && n > 9000 {
 			n = 5000
 		}
+		if ForceN > 0 {
+			n = ForceN
+		}
 		id := "i" + strings.Repeat("x", n)
 		fmt.Fprintf(&sb, "var %s = 1\nprint %s\ndef t { %s2 = %s }\n", id, id, id, id)
 	case "hugestring":
 		n := prng.Pick(r, []int{4095, 4096, 4097, 8192, 70000, 300000})
 		if !big && n > 9000 {
 			n = 5000
+		}
+		if ForceN > 0 {
+			n = ForceN
 		}
 		fmt.Fprintf(&sb, "print \"%s\" == \"\"\n", strings.Repeat("s", n))
 	case "fieldchain":
